@@ -24,6 +24,15 @@ inductive LateStrategy where
   | recompute
 deriving Repr, DecidableEq
 
+/-- The delay the code works with. `max_delay` / `max_lateness` are `std::time::Duration`s (whole seconds `secs : u64` plus
+`nanos < 10^9`); `maybe_generate_watermark` (BoundedOutOfOrder) and `handle_late_event` (AllowedLateness) both convert with the Rust
+expression `d.as_millis() as u64`: `Duration::as_millis()` is `secs * 1000 + nanos / 1_000_000 : u128`, i.e. the floor of the total
+nanoseconds over 10^6 (no overflow: < 2^74), and `as u64` keeps the low 64 bits. So a sub-millisecond duration is delay 0,
+`Duration::MAX` is delay `u64::MAX`, `Duration::from_secs(18446744073709552)` (2^64 ms + 384) is delay 384. The strategies of the model
+(`WmStrategy.bounded`, `LateStrategy.allowed`) carry this EFFECTIVE delay; every theorem is parametric in it. -/
+def durMillisU64 (secs nanos : Nat) : Nat :=
+  ((secs * 1000000000 + nanos) / 1000000) % 18446744073709551616
+
 /-- an event is identified by a caller-chosen id and carries its timestamp -/
 structure Ev where
   id : Nat
